@@ -7,8 +7,13 @@
    Verification is split into two ORACLES:
      - [bvalid chain pool b]  : Supervisor.ApplyBlock(b) succeeds (verifier.AccountBlock, vm, changes hash) on this chain
                                 with this pool;
-     - [mvalid chain d]       : Supervisor.ApplyMomentum(d) succeeds (verifier.Momentum, content = delivered blocks,
-                                changes hash, producer, signature) once every block of d has a patch in the pool.
+     - [mvalid chain pool d]  : Supervisor.ApplyMomentum(d) succeeds (verifier.Momentum, content = delivered blocks,
+                                changes hash, producer, signature) with the pool as it is once the blocks of d went
+                                through the loop. One part of it is explicit ([apply_momentum] at the end of the file):
+                                vm.MomentumVM.applyMomentum hands the pool's patch of EVERY header the content lists to
+                                the momentum store, and a header without a patch (GetPatch = nil) is a nil-pointer panic
+                                that Supervisor.ApplyMomentum turns into ErrVmRunPanic - the only thing that refuses a
+                                momentum listing a block that nobody applied.
    What InsertChain does around them is explicit:
      - a delivered block that already has a patch in the pool is NOT verified again ("already applied", continue);
      - a block that verifies is put in the pool (ForceAddAccountBlockTransaction) and stays there when the momentum
@@ -27,7 +32,9 @@ Open Scope Z_scope.
 Record smom := mkS { s_hash : Z; s_prev : Z; s_height : Z }.
 (* an account block: identifier (hash), account, height on the account chain *)
 Record blk := mkB { b_id : Z; b_acc : Z; b_height : Z }.
-Record dmom := mkD { d_mom : smom; d_blocks : list blk }.
+(* d_blocks: the delivered account blocks the loop looks at (all but BlockTypeContractSend), in order;
+   d_content: the headers the momentum lists (momentum.Content), all of them *)
+Record dmom := mkD { d_mom : smom; d_blocks : list blk; d_content : list blk }.
 
 Definition smom_eqb (a b : smom) : bool :=
   (s_hash a =? s_hash b) && (s_prev a =? s_prev b) && (s_height a =? s_height b).
@@ -71,7 +78,7 @@ Definition nstate := (list smom * list blk)%type.
 
 Section InsertChain.
   Variable bvalid : list smom -> list blk -> blk -> bool.   (* the account block passes full verification *)
-  Variable mvalid : list smom -> dmom -> bool.          (* the momentum passes full verification *)
+  Variable mvalid : list smom -> list blk -> dmom -> bool.   (* the momentum passes full verification (chain, pool) *)
   Variable fixed : bool.
   Variable clears : bool.                               (* DeleteMomentum drops the whole pool (the code: true) *)
 
@@ -101,7 +108,7 @@ Section InsertChain.
     | [] => (ICOk, (c, pool))
     | d :: r =>
         let '(okb, p1) := apply_blocks c pool (d_blocks d) in
-        if okb && (known_prev c (d_mom d) && mvalid c d)
+        if okb && (known_prev c (d_mom d) && mvalid c p1 d)
         then if extends c (d_mom d)
              then apply_all (c ++ [d_mom d]) (confirm (d_blocks d) p1) r (idx + 1)
              else apply_all c p1 r (idx + 1)
@@ -172,6 +179,15 @@ Section InsertChain.
       end
     end.
 End InsertChain.
+
+(* ---- Supervisor.ApplyMomentum, the part that looks at the pool. vm.MomentumVM.applyMomentum:
+       for every header of momentum.Content: momentumStore.AddAccountBlockTransaction(header, pool.GetPatch(header))
+   and AddAccountBlockTransaction starts with len(patch.Dump()): a header the pool has no patch for panics, recovered as
+   ErrVmRunPanic. [guard = true] is the variant that skips such a header (`patch == nil || len(patch.Dump()) == 0`),
+   kept only to show what the panic is needed for. [rest]: everything else ApplyMomentum checks. *)
+Definition content_held (p : list blk) (d : dmom) : bool := forallb (fun h => pooled h p) (d_content d).
+Definition apply_momentum (guard : bool) (rest : list smom -> dmom -> bool) (c : list smom) (p : list blk) (d : dmom) : bool :=
+  (guard || content_held p d) && rest c d.
 
 (* the writer "own pillar": the node produces momentums on its frontier, each confirming blocks of its pool *)
 Definition produce (st : nstate) (d : dmom) : nstate := (fst st ++ [d_mom d], confirm (d_blocks d) (snd st)).
